@@ -123,6 +123,9 @@ __attribute__((unused)) static carquet_status_t add_case_column(carquet_schema_t
     return ast;
 }
 
+/* != 0: write_file goes through carquet_writer_create_file on a stream the caller opened (and closes afterwards) instead of
+ * the path-based carquet_writer_create: the two must produce the same file */
+__attribute__((unused)) static int g_write_via_stream;
 __attribute__((unused)) static int write_file(const fcase* fc, const char* path, int* st, int* nst) {
     carquet_error_t err; memset(&err, 0, sizeof err);
     *nst = 0;
@@ -138,8 +141,9 @@ __attribute__((unused)) static int write_file(const fcase* fc, const char* path,
      * difference in the bytes. */
     if ((fc->ncols + fc->nsteps) % 3 == 0) { wo.row_group_size = 1 + (fc->nsteps * 37) % 300; wo.dictionary_page_size = 1 + fc->nsteps; }
     if ((fc->ncols + fc->nsteps) % 5 == 0) { wo.write_page_index = true; wo.write_bloom_filters = true; }
-    carquet_writer_t* w = carquet_writer_create(path, sc, &wo, &err);
-    if (!w) { carquet_schema_free(sc); return -1; }
+    FILE* own_fp = g_write_via_stream ? fopen(path, "wb") : NULL;
+    carquet_writer_t* w = own_fp ? carquet_writer_create_file(own_fp, sc, &wo, &err) : carquet_writer_create(path, sc, &wo, &err);
+    if (!w) { if (own_fp) fclose(own_fp); carquet_schema_free(sc); return -1; }
     for (int i = 0; i < fc->nsteps; i++) {
         const fstep* s = &fc->steps[i];
         if (s->kind == 1) { st[(*nst)++] = (int)carquet_writer_new_row_group(w); continue; }
@@ -151,6 +155,7 @@ __attribute__((unused)) static int write_file(const fcase* fc, const char* path,
         free(v); free(d); free(rl);
     }
     st[(*nst)++] = (int)carquet_writer_close(w);
+    if (own_fp) fclose(own_fp);
     carquet_schema_free(sc);
     return 0;
 }
